@@ -353,7 +353,17 @@ EVALS = {"generate": eval_generate, "keytext": eval_keytext, "render": eval_rend
          "factories": eval_factories}
 
 
+def eval_edge_key(case):
+    key, alg = case["key"], case["alg"]
+    obj = base_cls()(key, format="raw", alg=alg, digits=6, period=30)
+    if obj.key != key:
+        return [("C13|key|raw_key_altered", f"TOTP({key!r}, format='raw').key = {obj.key!r}")]
+    return []
+
+
 def replay(case):
+    if case.get("kind") == "edge_key":
+        return eval_edge_key(case)
     bad = R.self_check()
     if bad:
         raise HarnessError(f"totp reference fails its own vectors: {bad}")
@@ -434,6 +444,24 @@ def work(task):
         acc.axis("key_len", n)
         for form in FORMS:
             acc.axis("time_form", form)
+    elif part == "edge_keys":
+        # raw keys are BYTES: a key that begins / ends with a byte some text cleaner would strip (blanks, line ends, NUL,
+        # the padding and grouping characters of key TEXT) is that key, byte for byte
+        alg = task["alg"]
+        for n in (10, 20):
+            body = make_key(seed, n)
+            for b in (0x20, 0x09, 0x0A, 0x0B, 0x0C, 0x0D, 0x00, 0x3D, 0x2D, 0xA0, 0x85):
+                for where, key in (("first", bytes([b]) + body[1:]), ("last", body[:-1] + bytes([b])), ("both", bytes([b]) + body[1:-1] + bytes([b]))):
+                    obj = base_cls()(key, format="raw", alg=alg, digits=6, period=30)
+                    acc.ev()
+                    acc.cls("edge_key", alg, n, b, where)
+                    if obj.key != key:
+                        acc.violation("C13|key|raw_key_altered", f"TOTP({key!r}, format='raw').key = {obj.key!r}", {"kind": "edge_key", "key": key, "alg": alg})
+                    for t in (59, 1111111109):
+                        case = {"kind": "generate", "key": key, "alg": alg, "digits": 6, "period": 30, "t": t, "form": "int"}
+                        for k, desc in eval_generate(case, obj):
+                            acc.violation(k.replace("C13|generate|", "C13|generate_edge_key|"), desc, case)
+        acc.axis("part", "edge_keys")
     elif part == "sweep":
         alg, digits, period = task["alg"], task["digits"], task["period"]
         key = make_key(seed, task["keylen"])
@@ -593,6 +621,8 @@ def run(ctx):
                 for lo in range(0, top, 4096):
                     tasks.append({"part": "sweep", "keylen": n, "alg": alg, "digits": digits, "period": 30 if n == 20 else 7,
                                   "lo": lo, "hi": lo + 4096, "seed": seed})
+    for alg in ALGS:
+        tasks.append({"part": "edge_keys", "alg": alg, "seed": seed})
     for n in keylens:
         tasks.append({"part": "keytext", "keylen": n, "seed": seed})
     tasks.append({"part": "objects", "depth": 3, "seed": seed})
